@@ -363,7 +363,8 @@ def evalV : Nat → Env → Node → ES → Value × ES
         if !(c.value == .none) then (c.value, s)
         else if q.contains "onmatch" || q.contains "onchange" then (.none, unmodelled s "onmatch/onchange qualifier")
         else
-          let s0 := siblingValues fuel env id args s
+          -- `Count.to_value` is its own: no argument validation pass
+          let s0 := if name == "count" then s else siblingValues fuel env id args s
           let (x, s1) := produceFn fuel env id name q args s0
           let x' := match x with
             | .str t => .str (Model.PyStr.strip t)
@@ -556,7 +557,8 @@ def decideFn : Nat → Env → Nat → String → List String → List Node → 
     else if name == "count" then
       match args with
       | [] => let (_, s1) := evalV fuel env (.fn id name q args) s; (dflt, s1)
-      | _ => (none, unmodelled s "count(x)")
+      | [_] => let (_, s1) := evalV fuel env (.fn id name q args) s; (dflt, s1)      -- `matches` always answers the default
+      | _ => (none, unmodelled s "count(x, y)")
     else if ["count_lines", "line_number", "count_scans", "total_lines", "count_headers", "count_headers_in_line"].contains name then
       (none, s)      -- no `_decide_match`: the match stays None
     else if name == "every" then
@@ -771,7 +773,17 @@ def produceFn : Nat → Env → Nat → String → List String → List Node →
     else if name == "count" then
       match args with
       | [] => (.int (env.matchCount + 1), s)
-      | _ => (.none, unmodelled s "count(x)")
+      | [a] =>
+        -- count.name(x): one counter per value of x (for an equality: True / False), under the name qualifier
+        (match a, firstNonTerm q with
+         | .eq _ _ _ _, some cname | .fn _ _ _ _, some cname =>
+           let (tracked, s1) := evalV fuel env a s
+           let (cur, s2) := getVariable s1 cname (some tracked) (some (.int 0))
+           (match cur with
+            | .int c => (.int (c + 1), setVariable s2 cname (some tracked) (.int (c + 1)))
+            | _ => (.none, unmodelled s2 "count(x) on a non-int counter"))
+         | _, _ => (.none, unmodelled s "count(x) without a name qualifier, or x not a function or equality"))
+      | _ => (.none, unmodelled s "count(x, y)")
     else if name == "count_lines" then (.int env.dataCount, s)
     else if name == "line_number" then (.int env.idx, s)
     else if name == "count_scans" then (.int env.scanCount, s)
